@@ -350,6 +350,53 @@ def run_asn1c(asn1c, skel, mod, opts, d):
     return rc, out, err
 
 
+# Object cache for the skeleton copies.  asn1c copies skeletons/*.c|h verbatim next to the generated files and the
+# emitted makefile compiles all of them per module (~60 files, 4/5 of the work).  A skeleton source includes skeleton
+# headers only, so its object depends on (file bytes, flags) alone: it is compiled once per flag variant, in a
+# directory holding only the skeleton files, and copied next to a module's sources before the emitted makefile runs
+# (make then finds it up to date).  Used for a module only after checking that EVERY file of the module directory
+# that has a skeleton's name is byte-identical to that skeleton; otherwise the module is built from scratch.
+import threading
+_cache_lock = threading.Lock()
+_cache = {}
+_skel_bytes = {}
+
+
+def skel_objects(skel, variant):
+    with _cache_lock:
+        if variant in _cache:
+            return _cache[variant]
+        d = os.path.join(scratch(), "skelobj_%d" % len(_cache))
+        os.makedirs(d, exist_ok=True)
+        srcs = sorted(f for f in os.listdir(skel) if f.endswith(".c") and f != "converter-example.c")
+        mk = ["CFLAGS=%s %s -I%s" % (STRICT, " ".join(variant), skel), "all: " + " ".join(x[:-2] + ".o" for x in srcs),
+              "%%.o: %s/%%.c" % skel, "\t-@$(CC) $(CFLAGS) -c $< -o $@ 2>/dev/null"]
+        open(os.path.join(d, "Makefile"), "w").write("\n".join(mk) + "\n")
+        sh("make -k -j%d all" % NCPU, cwd=d, timeout=900)
+        objs = {f[:-2] + ".c": os.path.join(d, f) for f in os.listdir(d) if f.endswith(".o")}   # a file that does not compile is simply not cached
+        if not _skel_bytes:
+            for f in os.listdir(skel):
+                p = os.path.join(skel, f)
+                if os.path.isfile(p):
+                    _skel_bytes[f] = open(p, "rb").read()
+        _cache[variant] = objs
+        return objs
+
+
+def seed_objects(job, d):
+    objs = skel_objects(job["skel"], tuple(job["mod_cflags"]))
+    names = os.listdir(d)
+    for f in names:
+        if f in _skel_bytes and f != "converter-example.c" and open(os.path.join(d, f), "rb").read() != _skel_bytes[f]:
+            return 0           # a generated file shadows a skeleton file: no reuse for this module
+    n = 0
+    for f in names:
+        if f in objs and f in _skel_bytes:
+            shutil.copyfile(objs[f], os.path.join(d, f[:-2] + ".o"))
+            n += 1
+    return n
+
+
 def build_job(job):
     try:
         return build_job1(job)
@@ -360,33 +407,42 @@ def build_job(job):
 
 def build_job1(job):
     """steps (a), (b) and the translator run of (c) for one (module, option set); fills the job dict"""
+    import time
     d, mod, opts = job["dir"], job["mod"], job["opts"]
+    t0 = time.time()
     rc, out, err = run_asn1c(job["asn1c"], job["skel"], mod, opts, d)
-    job.update(rc=rc, stdout=out[-3000:], stderr=err[-3000:])
+    job.update(rc=rc, stdout=out[-3000:], stderr=err[-3000:], t_asn1c=time.time() - t0)
     if rc != 0 or job.get("only_asn1c"):
         return job
     if not os.path.exists(os.path.join(d, "converter-example.mk")):
         job["build_rc"], job["build_log"] = -1, "asn1c exited 0 but wrote no converter-example.mk"
         return job
-    env = dict(os.environ, CFLAGS=STRICT)
-    brc, bout, berr = run("make -f converter-example.mk 2>&1", d, timeout=600, env=env)
-    errs = [l for l in bout.split("\n") if re.search(r"\berror\b|undefined reference|multiple definition|No rule to make|\*\*\*", l)]
-    job["build_rc"], job["build_log"], job["warnings"] = brc, "\n".join(errs[:12]) if errs else bout[-1500:], len(re.findall(r"warning:", bout))
     # the per-module preprocessor flags the emitted makefile passes (ASN_DISABLE_OER_SUPPORT ...)
     mk = open(os.path.join(d, "Makefile.am.libasncodec")).read() if os.path.exists(os.path.join(d, "Makefile.am.libasncodec")) else ""
     mm = re.search(r"^ASN_MODULE_CFLAGS=(.*)$", mk, flags=re.M)
     job["mod_cflags"] = mm.group(1).split() if mm else []
+    job["reused_objects"] = seed_objects(job, d) if job.get("reuse", True) else 0
+    env = dict(os.environ, CFLAGS=STRICT)
+    t0 = time.time()
+    brc, bout, berr = run("make -f converter-example.mk 2>&1", d, timeout=600, env=env)
+    job["t_make"] = time.time() - t0
+    errs = [l for l in bout.split("\n") if re.search(r"\berror\b|undefined reference|multiple definition|No rule to make|\*\*\*", l)]
+    job["build_rc"], job["build_log"], job["warnings"] = brc, "\n".join(errs[:12]) if errs else bout[-1500:], len(re.findall(r"warning:", bout))
     # headers as C++
     hs = sorted(f for f in os.listdir(d) if f.endswith(".h"))
     open(os.path.join(d, "cxx_all.cpp"), "w").write("".join('#include "%s"\n' % h for h in hs) + "int main() { return 0; }\n")
+    t0 = time.time()
     crc, cout, cerr = run(["g++", "-fsyntax-only", "-x", "c++", "-I."] + job["mod_cflags"] + ["cxx_all.cpp"], d, timeout=300)
+    job["t_cxx"] = time.time() - t0
     job["cxx_rc"], job["cxx_log"] = crc, "\n".join([l for l in cerr.split("\n") if "error" in l][:8]) or cerr[-800:]
     if brc != 0:
         return job
     # translator
     cmd = "gcc -std=gnu99 -w -I. -I%s %s -c %s -o dumpdescr.o && gcc -o dumpdescr dumpdescr.o pdu_collection.o libasncodec.a -lm && ./dumpdescr" % (
         job["skel"], " ".join(job.get("mod_cflags", [])), os.path.join(HARNESS, "dumpdescr.c"))
+    t0 = time.time()
     drc, dout, derr = run(cmd, d, timeout=300)
+    job["t_dump"] = time.time() - t0
     job["dump_rc"], job["dump"], job["dump_err"] = drc, dout, derr[-1500:]
     return job
 
